@@ -47,7 +47,8 @@ class Driver(object):
             if j % 2 == 1 and (j // 2) < extra or k >= n:
                 allitems.append(dict(name='zzz-%d' % j, idx=-1))
             else:
-                allitems.append(dict(name='item-%d' % k, idx=k))
+                # names are not unique across virtual hosts: every name exists in two of them
+                allitems.append(dict(name='item-%d' % (k // 2), vhost='vh%d' % (k % 2), idx=k))
                 k += 1
         if m['name'] is None or extra == 0:
             items = [it for it in allitems if it['idx'] >= 0]
